@@ -166,3 +166,10 @@ def expected_column(O):
             "extraction evaluates virtual signals against, and the one rows are evaluated in - the iterator's own `ctx`")
 def one_context(O):
     dri.one_context(O, rep())
+
+
+@obligation("C14/context-lookup-has-two-sources", desc="EvalContext::get consults the visible variable map and then the device "
+            "outputs - nothing else (no counter or cache kept beside the map), so with the variable map swapped out a name can "
+            "only mean the device output")
+def lookup_two_sources(O):
+    C04.ctx_get(O, rep())
